@@ -76,7 +76,12 @@ def lossless_oracle(case, o):
                 for k in ("second", "from_instance", "fresh_after_instances_edited", "value_subclasses", "enum_members"):
                     if k in b:
                         forms[k] = b[k]
+                if r is None and "shared_subobjects" in b and not schema_h.same(b["shared_subobjects"], b.get("tree_of_the_same")):
+                    r = ("shared-subobject-changes-the-dump", f"an object whose members share sub-objects dumps as {str(b['shared_subobjects'])[:120]}, "
+                         f"its tree copy as {str(b.get('tree_of_the_same'))[:120]}")
                 for k, v in sorted(forms.items()):
+                    if r is not None:
+                        break
                     if not schema_h.same(v, b["dump"]):
                         r = lossless(S, t, case["wire"], v) or ("wire-form-not-repeatable", f"form '{k}' is {str(v)[:120]}")
                         r = (r[0], f"[{k}] {r[1]}")
@@ -107,6 +112,24 @@ class Lossless(ModelCases):
 class Order(FreshOrder):
     def step_oracle(self, step, o):
         return lossless_oracle(step, o)
+
+    def history_oracle(self, step, o):
+        """whatever was dumped before, and in which mode: every by_alias dump and every wire-name site of
+        the library gives the lossless wire form"""
+        S = schema_h.schema()
+        t = {"k": "ref", "cls": step["cls"]}
+        for side in ("pydantic", "fallback"):
+            b = o[side]
+            if not b.get("ok"):
+                continue
+            for i, (mode, val) in enumerate(b["dumps"]):
+                if mode not in ("wire", "wire_json", "mcp", "site"):
+                    continue
+                r = lossless(S, t, step["wire"], val) if not (isinstance(val, dict) and "$raised" in val) else ("dump-raises", str(val))
+                if r:
+                    return ("wire-form-depends-on-dump-history", f"{step['cls']} under the {side} backend, dump #{i + 1} ({mode}) after "
+                            f"{[m for m, _ in b['dumps'][:i]]}: {r[1]}"[:300], None)
+        return None
 
 
 HELPER_SITES = {
